@@ -2,10 +2,13 @@
 import itertools
 import random
 from vf import Case
+from gen import constants
 
 ID = "C12"
 DRIVER = "drv_streams"
 HARNESS = "h_streams"
+GEN = [constants.gen]
+TIE = ['Ufw.Tie.Slip']
 ALPHA = ["c0", "db", "dc", "dd", "41"]
 RULE = ("every octet string up to a length bound over {END, ESC, ESC_END, ESC_ESC, 0x41} (quick: <= 5, thorough: <= 7, longer ones "
         "sampled) used (a) as payload: encode with the library, decode the result followed by a trailer, both modes; (b) as raw decoder "
